@@ -281,7 +281,7 @@ def parse_groups(answer):
 def gen_history(rng, knobs):
     """a history as a list of op strings plus the parallel list of reference actions"""
     ops, acts = [], []
-    now = T0
+    now = rng.choice(knobs.get("t0s", [T0]))
     ops.append("T %d" % now); acts.append(("T", now))
     uids = ["job%d" % i for i in range(1, rng.choice([2, 3, 5]) + 1)]
     nsteps = rng.randint(6, knobs.get("steps", 22))
